@@ -169,6 +169,55 @@ pub mod unit {
         &&& in_dec(headroom(r))
         &&& forall|k: RoyaltyRecipient| #[trigger] r.royalty_cost_breakdown@.contains_key(k) ==>
                 0 <= r.royalty_cost_breakdown@[k].v() <= r.royalty_cost_committed.v()
+        &&& r.royalty_cost_committed.v() == map_sum(r.royalty_cost_breakdown@)
+    }
+
+    /// sum of the royalty breakdown (the map is finite)
+    pub open spec fn map_sum(m: Map<RoyaltyRecipient, Decimal>) -> int
+        decreases m.dom().len()
+        via map_sum_decreases
+    {
+        if m.dom().len() == 0 { 0 } else {
+            let k = m.dom().choose();
+            m[k].v() + map_sum(m.remove(k))
+        }
+    }
+    #[via_fn]
+    proof fn map_sum_decreases(m: Map<RoyaltyRecipient, Decimal>) {
+        if m.dom().len() != 0 {
+            let k = m.dom().choose();
+            assert(m.dom().contains(k)) by { if m.dom() =~= Set::<RoyaltyRecipient>::empty() {} }
+            assert(m.remove(k).dom() =~= m.dom().remove(k));
+        }
+    }
+    pub proof fn lemma_map_sum_empty()
+        ensures map_sum(Map::<RoyaltyRecipient, Decimal>::empty()) == 0
+    {
+        assert(Map::<RoyaltyRecipient, Decimal>::empty().dom() =~= Set::<RoyaltyRecipient>::empty());
+    }
+    /// the sum does not depend on the order in which entries are picked
+    pub proof fn lemma_map_sum_remove(m: Map<RoyaltyRecipient, Decimal>, k: RoyaltyRecipient)
+        requires m.contains_key(k)
+        ensures map_sum(m) == m[k].v() + map_sum(m.remove(k))
+        decreases m.dom().len()
+    {
+        assert(m.dom().len() != 0) by { if m.dom().len() == 0 { assert(m.dom() =~= Set::<RoyaltyRecipient>::empty()); } }
+        let c = m.dom().choose();
+        assert(m.dom().contains(c));
+        if c != k {
+            assert(m.remove(c).dom() =~= m.dom().remove(c));
+            assert(m.remove(k).dom() =~= m.dom().remove(k));
+            lemma_map_sum_remove(m.remove(c), k);
+            lemma_map_sum_remove(m.remove(k), c);
+            assert(m.remove(c).remove(k) =~= m.remove(k).remove(c));
+        }
+    }
+    pub proof fn lemma_map_sum_insert(m: Map<RoyaltyRecipient, Decimal>, k: RoyaltyRecipient, v: Decimal)
+        ensures map_sum(m.insert(k, v)) == map_sum(m) - (if m.contains_key(k) { m[k].v() } else { 0 }) + v.v()
+    {
+        lemma_map_sum_remove(m.insert(k, v), k);
+        assert(m.insert(k, v).remove(k) =~= m.remove(k));
+        if m.contains_key(k) { lemma_map_sum_remove(m, k); } else { assert(m.remove(k) =~= m); }
     }
 
     /// sum of the NON-contingent locked fees
@@ -344,6 +393,8 @@ pub mod unit {
                 final(self).royalty_cost_committed.v() == 0,
                 inv(*final(self)),
                 ledger_ok(*old(self)) ==> ledger_ok(*final(self)),
+        @entry
+            proof { lemma_map_sum_empty(); }
         @*/
 
         /*@fn radix-engine/src/system/system_modules/costing/fee_reserve.rs :: impl SystemLoanFeeReserve :: fn fully_repaid
@@ -685,6 +736,7 @@ pub mod unit {
         let m0 = r.royalty_cost_breakdown@;
         let prev = if m0.contains_key(recipient) { m0[recipient].v() } else { 0 };
         assert(Decimal::of(prev + amount).v() == prev + amount);
+        lemma_map_sum_insert(m0, recipient, Decimal::of(prev + amount));
         assert forall|k: RoyaltyRecipient| #[trigger] f.royalty_cost_breakdown@.contains_key(k) implies
             0 <= f.royalty_cost_breakdown@[k].v() <= f.royalty_cost_committed.v() by {
             if k != recipient { assert(m0.contains_key(k)); }
@@ -798,6 +850,21 @@ pub mod unit {
                 lemma_effective_price(costing_parameters.finalization_cost_unit_price.v(), tip_prop(transaction_costing_parameters.tip));
                 lemma_mul_nonneg(dec_mul(costing_parameters.execution_cost_unit_price.v(), tip_mult(transaction_costing_parameters.tip)),
                                  costing_parameters.execution_cost_unit_loan as int);
+            }
+        @before <<Self {>> #1
+            proof {
+                let t = transaction_costing_parameters.tip;
+                assert(tip_multiplier.v() == tip_mult(t));
+                assert(effective_execution_cost_unit_price.v() == dec_mul(costing_parameters.execution_cost_unit_price.v(), tip_mult(t)));
+                assert(effective_finalization_cost_unit_price.v() == dec_mul(costing_parameters.finalization_cost_unit_price.v(), tip_mult(t)));
+                assert(effective_execution_cost_unit_price.v() >= 0 && effective_finalization_cost_unit_price.v() >= 0);
+                assert(system_loan_in_xrd.v() == effective_execution_cost_unit_price.v() * costing_parameters.execution_cost_unit_loan);
+                assert(system_loan_in_xrd.v() >= 0);
+                assert(starting_xrd_balance.v() == system_loan_in_xrd.v() + transaction_costing_parameters.free_credit_in_xrd.v());
+                assert(effective_execution_cost_unit_price.v() * 0 == 0);
+                assert(effective_finalization_cost_unit_price.v() * 0 == 0);
+                assert(locked_nc(Seq::<(NodeId, LiquidFungibleResource, bool)>::empty()) == 0);
+                lemma_map_sum_empty();
             }
         @*/
 
